@@ -28,10 +28,40 @@ the three repaired defects (list in the keyspace at the snapshot threshold; snap
 run on every check and must pass.  Thorough tier only: scenarios with proxied links (network partitions between live nodes, see
 c07.py / harness/cluster_links.go) - a live follower cut off across the snapshot threshold and caught up by MsgSnap after the heal,
 an isolated leader, each combined with SIGKILL of all nodes."""
+import os
+
 from .. import core, clustersuite, readygen, snapgen
 
 LEVEL = "proof"
 KNOWN_HERE = ["member-url-lost-after-compaction"]
+
+
+def snaprace(R, binary):
+    """engine snaprace (harness/snaprace.go, hook H4): the REAL publishEntries / maybeTriggerSnapshot / saveSnap of a RaftNode without raft, fed batches of
+    committed entries with and without commands while the state machine applies each batch after a random delay; a snapshot at index i must hold exactly
+    the commands of the entries up to i (a snapshot never loses acknowledged writes, at the place where the image is taken)"""
+    import json
+    n = 120 if R.tier == "quick" else 3000
+    env = core.goenv()
+    env["VERIF_SNAPCOUNT"] = "1"      # catch-up window of the compaction: small, or the second snapshot of a short log cannot compact
+    if os.path.isdir("/dev/shm") and os.access("/dev/shm", os.W_OK):
+        env.setdefault("VERIF_TMP", "/dev/shm")
+    with core.Workdir() as wd:
+        rc, so, se, dt = core.run([binary, "snaprace", wd, str(R.seed), str(n)], env=env, timeout=1200)
+    reps = []
+    for l in so.split("\n"):
+        if l.strip().startswith("{"):
+            reps.append(json.loads(l))
+    bad = [r for r in reps if r.get("result") != "ok"]
+    R.oblige("snaprace: every snapshot taken by the real maybeTriggerSnapshot holds exactly the commands of the entries up to its index (%d scenarios, %d snapshots, %d batches "
+             "without commands, state machine delayed up to 8 ms)" % (len(reps), sum(r.get("snapshots", 0) for r in reps), sum(r.get("batches_without_commands", 0) for r in reps)),
+             "oracle", rc == 0 and len(reps) == n and not bad, ("%d scenarios failed; " % len(bad)) + se[-300:] if (bad or rc != 0) else "")
+    R.add_cases(sum(r.get("batches", 0) for r in reps), sum(1 for r in reps if r.get("result") == "ok" and r.get("snapshots", 0) > 0))
+    R.suites.append(dict(name="snaprace", scenarios=len(reps), failed=len(bad), seconds=round(dt, 1)))
+    for r in bad[:2]:
+        R.violation("snaprace-%d" % r.get("scenario", 0), dict(kind="impl-violates-spec", engine="snaprace", summary=("snaprace scenario %s: %s: %s" % (r.get("scenario"), r.get("result"), r.get("detail", "")))[:800],
+                                                              args=["snaprace", str(R.seed), str(r.get("scenario", 0) + 1)], report=r,
+                                                              explanation="the keyspace image of a snapshot does not correspond to its index: a node restored from it (restart, or a follower receiving it) loses or repeats acknowledged writes"))
 
 
 def run(R, ctx):
@@ -46,6 +76,7 @@ def run(R, ctx):
     f4 = clustersuite.fact_f4(R, broken_is_violation=False)
     # the behavioural tie of F4: the real Ready loop of one node, every externalisation judged against the disk (fast: before the cluster runs)
     rl = readygen.run_suite(R, ctx, binary, f4)
+    snaprace(R, binary)
     main = clustersuite.run_cluster(R, ctx, "C08", binary, known, KNOWN_HERE) or []
     if f4 is not None and not f4["unconditional"] and not rl["failing"]:
         # the persist step became conditional and no scenario of this run showed an externalisation without its disk write
@@ -76,6 +107,19 @@ def run(R, ctx):
 
 
 def replay(R, payload):
+    if payload.get("engine") == "snaprace":
+        binary, err = core.build_harness()
+        if not binary:
+            print(err)
+            return 1
+        env = core.goenv()
+        env["VERIF_SNAPCOUNT"] = "1"
+        with core.Workdir() as wd:
+            rc, so, se, dt = core.run([binary] + payload["args"][:1] + [wd] + payload["args"][1:], env=env, timeout=600)
+        bad = [l for l in so.split("\n") if l.strip().startswith("{") and '"result":"ok"' not in l]
+        print("\n".join(l[:600] for l in bad[:3]))
+        print("replay: %s" % ("still failing" if bad else "no longer failing"))
+        return 1 if bad else 0
     if payload.get("engine") == "readyloop":
         return readygen.replay(R, payload)
     if payload.get("engine") == "ready":
